@@ -391,6 +391,28 @@ def library_cases(tier):
                         if src not in seen:
                             seen.add(src)
                             out.append(src)
+    # virtual sequences of astronomic length as the receiver of every Sequence<int> function (sizes are computed before anything is built)
+    huge = ['range((-(2 * 4611686018427387904)), 9223372036854775807)', 'range(9223372036854775807)', 'range(0, 9223372036854775807, 3)',
+            'range(9223372036854775807, (-(2 * 4611686018427387904)), (-1))', 'count().take(4611686018427387904)', 'range(4611686018427387904).map((p0: int)->{p0})',
+            '[1].repeat(4611686018427387904)', 'range(9223372036854775807).skip(1)']
+    for sig in sigs:
+        if sig['kind'] != 'static' or sig['name'].startswith('_') or sig['name'] in skip_names:
+            continue
+        for bind, ptypes, opts, ret in stdlib.instantiate(sig, generic_choices=(stdlib.INT,)):
+            if not ptypes or ptypes[0] != ('app', 'Sequence', [stdlib.INT]):
+                continue
+            for ar in stdlib.arities(opts):
+                if ar < 1 or ar > 3:
+                    continue
+                rest = [pools.get(p, 2) for p in ptypes[1:ar]]
+                if any(not r for r in rest):
+                    continue
+                for h in (huge if tier != 'quick' else huge[:4]):
+                    for tail in itertools.islice(itertools.product(*rest), 4):
+                        src = stdlib.call_src(sig['name'], [h] + list(tail))
+                        if src not in seen:
+                            seen.add(src)
+                            out.append(src)
     return out
 
 
@@ -522,7 +544,7 @@ def run(tier):
     # C
     lib = library_cases(tier)
     rep.bounds['library_calls'] = len(lib)
-    configs = [('roomy', {'search': 5000, 'size': 1 << 28, 'depth': 2000}), ('tight', {'size': 200000, 'depth': 40, 'calls': 2000, 'search': 300, 'recursion': 200})]
+    configs = [('roomy', {'search': 5000, 'size': 1 << 28, 'depth': 2000, 'calls': 300000}), ('tight', {'size': 200000, 'depth': 40, 'calls': 2000, 'search': 300, 'recursion': 200})]
     for cname, limits in configs:
         res = []
         for part in pmap(_library_chunk, [(w, limits) for w in chunks(lib, 120)]):
